@@ -1,6 +1,6 @@
 (* extract/Entry_E5d.v — entry points of the reference bookkeeping model (C08). *)
 From Coq Require Import ZArith QArith List String Bool.
-From Pico Require Import Num PyStr Value CheckPico Refs Entry_E5c.
+From Pico Require Import Num PyStr Value CheckPico Refs Noise Entry_E5c.
 Import ListNotations.
 Local Open Scope string_scope.
 
@@ -23,6 +23,29 @@ Fixpoint passes (fuel : nat) (target : string -> option xnode) (n : xnode) : xno
   | S f => if has_use 64 n then passes f target (resolve_use_pass target href_of n) else n
   end.
 
+Definition nsk_of (v : value) : nsk := let s := getS v in if s =? "svg" then NsSvg else if s =? "xlink" then NsXlink else NsOther.
+Definition v_nsk (n : nsk) : value := VS (match n with NsSvg => "svg" | NsXlink => "xlink" | NsOther => "other" end).
+Fixpoint nnode_of (fuel : nat) (v : value) : nnode :=
+  match fuel with
+  | O => NComment
+  | S f => match v with
+           | VS s => if s =? "pi" then NPI else NComment
+           | _ => NEl (nsk_of (arg 1 v)) (getS (arg 2 v))
+                      (map (fun a => (nsk_of (arg 0 a), getS (arg 1 a), getS (arg 2 a))) (getL (arg 3 v)))
+                      (map (nnode_of f) (getL (arg 4 v)))
+           end
+  end.
+Fixpoint v_nnode (fuel : nat) (n : nnode) : value :=
+  match fuel with
+  | O => VN
+  | S f => match n with
+           | NComment => VS "comment"
+           | NPI => VS "pi"
+           | NEl ns t a kids => VL [VS "el"; v_nsk ns; VS t; VL (map (fun x => VL [v_nsk (fst (fst x)); VS (snd (fst x)); VS (snd x)]) a);
+                                    VL (map (v_nnode f) kids)]
+           end
+  end.
+
 Definition entry_E5d (orc : oracle) (name : string) (v : value) : option value :=
   if name =? "new_id" then
     Some (match new_id (getS (arg 0 v)) (map getS (getL (arg 1 v))) with
@@ -35,6 +58,7 @@ Definition entry_E5d (orc : oracle) (name : string) (v : value) : option value :
     let root := xnode_of 64 v in
     (* el_by_id is captured once, before the first pass *)
     Some (VL (map VS (ids (passes 6 (fun i => find_id 64 i root) root))))
+  else if name =? "clean_root" then Some (v_nnode 64 (clean_root (nnode_of 64 v)))
   else if name =? "stroke_split_ids" then
     Some (VL (map v_optS (stroke_split_ids (optS_of (arg 0 v)) (getB (arg 1 v)))))
   else None.
